@@ -659,9 +659,14 @@ func runMsg(op string, k *toks, o *vu.Out) {
 	if pshTok != "nopsh" {
 		var ok bool
 		psh, ok = vu.ParseHex(pshTok)
-		if !ok || len(psh) != 40 || proto != protoV6 {
+		if !ok || (proto == protoV6 && len(psh) != 40) || (proto != protoV6 && len(psh) > 64) {
 			k.bad = true
 		}
+	}
+	pshArgGiven := psh != nil
+	pshGiven := psh
+	if proto != protoV6 {
+		psh = nil // the pseudo header belongs to ICMPv6 only: an ICMPv4 message must come out the same
 	}
 	typ, code := k.nat(), k.int()
 	b := k.body()
@@ -676,8 +681,8 @@ func runMsg(op string, k *toks, o *vu.Out) {
 	var perr error
 	res := vu.Catch(func() string {
 		var pshArg []byte
-		if psh != nil {
-			pshArg = append([]byte(nil), psh...)
+		if pshArgGiven {
+			pshArg = append(make([]byte, 0, len(pshGiven)), pshGiven...)
 		}
 		w, err := m.Marshal(pshArg)
 		if err != nil {
@@ -701,8 +706,17 @@ func runMsg(op string, k *toks, o *vu.Out) {
 	})
 	o.Op(op, res)
 	if res == "panic" {
-		o.Fail("", "Marshal/ParseMessage panicked on "+op)
+		o.Fail("", "Marshal/ParseMessage panicked on "+op[:min(len(op), 200)])
 		return
+	}
+	if proto == protoV4 && pshArgGiven && res != "merr" {
+		// ICMPv4 output does not depend on the pseudo-header argument
+		ref, _ := (&icmp.Message{Type: mkType(proto, typ), Code: code, Body: b.toGo()}).Marshal(nil)
+		if !bytes.Equal(ref, wire) {
+			o.Fail("", fmt.Sprintf("ICMPv4 Marshal with a non-nil pseudo header returned %d bytes %.60x, with nil %d bytes %.60x", len(wire), wire, len(ref), ref))
+		} else {
+			o.Stat("msg:v4-psh-ignored")
+		}
 	}
 	want, inDom, sig := expectBack(proto, typ, code, b)
 	if !inDom {
